@@ -1,6 +1,7 @@
 package props
 
 import (
+	"go/constant"
 	"fmt"
 	"go/token"
 	"go/types"
@@ -421,6 +422,9 @@ func (w *c12fn) flatten(v ssa.Value, label string, d int) []c12leaf {
 			if len(ss) > 1 {
 				return []c12leaf{{v, label}}
 			}
+			if c, ok := ss[0].Val.(*ssa.Const); ok && (c.Value == nil || c12isZeroConst(c)) {
+				continue // the field's zero value written out: same as leaving the field unset
+			}
 			out = append(out, w.flatten(ss[0].Val, label+"."+st.Field(i).Name(), d+1)...)
 		}
 		return out
@@ -528,4 +532,20 @@ func c12ints(xs []int) string {
 		s = append(s, fmt.Sprint(x))
 	}
 	return strings.Join(s, ",")
+}
+
+// c12isZeroConst reports whether c is the zero value of its (basic) type.
+func c12isZeroConst(c *ssa.Const) bool {
+	if c.Value == nil {
+		return true
+	}
+	switch c.Value.Kind() {
+	case constant.Int, constant.Float:
+		return constant.Sign(c.Value) == 0
+	case constant.String:
+		return constant.StringVal(c.Value) == ""
+	case constant.Bool:
+		return !constant.BoolVal(c.Value)
+	}
+	return false
 }
